@@ -68,7 +68,11 @@ SIEVE_CMDS = [b'CAPABILITY', b'NOOP', b'NOOP "tag"', b'LOGOUT', b'STARTTLS',
               b'LISTSCRIPTS', b'SETACTIVE "x"', b'SETACTIVE ""',
               b'GETSCRIPT "x"', b'DELETESCRIPT "x"',
               b'RENAMESCRIPT "x" "y"', b'CHECKSCRIPT {5+}\r\nkeep;',
-              b'UNAUTHENTICATE']
+              b'UNAUTHENTICATE',
+              # synchronising literals, which ManageSieve does not have
+              b'NOOP {5}', b'PUTSCRIPT "x" {7}', b'CHECKSCRIPT {7}',
+              b'GETSCRIPT {1}', b'AUTHENTICATE "PLAIN" {4}',
+              b'PUTSCRIPT {1} {5+}\r\nkeep;', b'RENAMESCRIPT "x" {1}']
 
 
 TEASERS = [b'z APPEND INBOX {0+}\r\n', b'z LOGIN {0+}\r\n',
